@@ -59,7 +59,7 @@ def spec_to_json(spec):
 
 
 def spec_from_json(j):
-    return (j[0], j[1], j[2], {k: (np.array(v) if isinstance(v, list) else v) for k, v in j[3].items()}, j[4])
+    return (j[0], j[1], j[2], zoo.retype(j[2], {k: (np.array(v) if isinstance(v, list) else v) for k, v in j[3].items()}), j[4])
 
 
 def probes(L0, d):
